@@ -1089,6 +1089,23 @@ def mon_C17(s):
             for q in op["reqs"]:
                 if "%s__r%s" % (q["task"], q["route"]) not in known:
                     out.append(V("rerun accepted for a task execution that does not exist: %s" % q["task"], i))
+    # convergence: after a rerun the status is decided by the current execution of each task; a
+    # record superseded by the rerun has no say (a canceled execution that was re-executed does
+    # not make the workflow canceled again)
+    last_rerun = None
+    for i, (op, r) in enumerate(zip(s["ops"], s["replies"])):
+        st = r.get("state")
+        if op["op"] == "rerun" and not raised(r):
+            last_rerun = i
+            continue
+        if last_rerun is None or st is None or st["status"] != "canceled":
+            continue
+        if any(o["op"] == "req" and o["status"] in ("canceling", "canceled") for o in s["ops"][last_rerun:i + 1]):
+            break
+        cur = [st["sequence"][k] for k in st["tasks"].values() if k < len(st["sequence"])]
+        if not any(q.get("status") in ("canceling", "canceled") for q in cur):
+            out.append(V("workflow canceled after the rerun although no current task execution is canceled", i, region_of(s, i)))
+        break
     return out
 
 
